@@ -537,11 +537,11 @@ def trace_check(c, module, trace_module, n, name, what, constants=None, rounds=1
 def check_C13(tier):
     c = Check("C13", tier, "model_checking")
     t = tier == "thorough"
-    r = tlc("MC_Grammar", cfg_text(constants={"Depth": 3 if t else 2}, invariants=["RoundTripHolds", "Emit"]), "grammar", workers=W, timeout=1500)
+    r = tlc("MC_Grammar", cfg_text(constants={"Depth": 4 if t else 3}, invariants=["RoundTripHolds", "Emit"]), "grammar", workers=W, timeout=1500)
     expect_holds(r, "Grammar round trip (Parse(Min(t)) = t = Parse(Full(t)))"); c.add_tlc(r)
     rep = vh_replay("grammar", r.replay_path, "grammar")
     c.add_report(rep, reg("parser vs Grammar.tla (minimal vs full parentheses)", "grammar"))
-    c.rule = ("TLC enumerates expression trees (all operators, <= 2 operator nodes; thorough: 3 nodes over one operator per precedence level), checks on the reference grammar that the "
+    c.rule = ("TLC enumerates expression trees (all operators, <= 2 operator nodes, 3 nodes over one operator per precedence level and the 'low, tighter, low' shapes; thorough: 4 nodes over the representatives), checks on the reference grammar that the "
               "minimally parenthesised text parses back to the tree, and emits Min(t) and Full(t); the real parser must produce the same statement for Min(t) written with spaces, "
               "written without any optional whitespace, and for Full(t). Non-trivial = more than one token; distinct by Min(t).")
     c.assumptions = ["Full(t) is unambiguous for the real parser because every operand is parenthesised"]
